@@ -1,7 +1,8 @@
 ----------------------------- MODULE PtRefsImpl -----------------------------
 (* I-level (implementation-shaped) model of the passthrough inode / handle / directory-stream machinery,
    transcribed from src/passthrough/{mod.rs, sync_io.rs, inode_store.rs, util.rs, mount_fd.rs,
-   file_handle.rs} and src/api/pseudo_fs.rs, INCLUDING behaviour believed wrong (the BUG switches).
+   file_handle.rs} and src/api/pseudo_fs.rs, INCLUDING, behind the BUG switches, the three defects the checks found (fixed in /repo by 0050bb3, ae8cb5c,
+   05f7243: the switches are FALSE in the MC configurations and TRUE only in the *_asfound.cfg anti-vacuity runs).
 
    m  = the server + host state (one record, so that request handlers compose: create = create_excl ;
         do_lookup ; open_inode, and so that FailAt(n) -- EMFILE at the (n+1)-th descriptor allocation of one
@@ -427,7 +428,8 @@ Next ==
      ELSE \E h \in 1..2, size \in 1..3, j \in 0..4, plus \in {FALSE} : DirOp(h, size, j, plus)
 
 Spec == MCInit /\ [][Next]_vars
-View == <<m, a>>
+\* hist and the ORDER of first appearance are scenario bookkeeping; which numbers / handles the client knows is state
+View == <<m, a, Range(seenn), Range(seenh)>>
 
 (* ------------------------------------------ checking ----------------------------------------- *)
 \* signatures the BUG switches stand for (the trace check lists the same defects in known_findings.json)
@@ -437,6 +439,8 @@ Allowed ==
   \cup (IF BUG_PROBE_LEAK THEN {"C15|mc|any|fds"} ELSE {})
   \cup (IF BUG_DOTS THEN {"C16|pt|empty-before-end|dots-fill-buffer"} ELSE {})
 NoViol == a.viol \subseteq Allowed
+\* as-found self-test (MC_PtRefs_*_asfound.cfg: one BUG switch back on): must be violated with the old signature
+NoViolStrict == a.viol = {}
 \* the client-visible state is what A says: a number resolves iff its count is positive (no ghosts) -- a direct
 \* statement of C08 over the model, independent of the probes
 Resolves == \A k \in Range(seenn) : (a.up /\ k \notin a.ghost /\ a.viol = {}) => ((k \in DOMAIN m.data) <=> Valid(a, k))
